@@ -160,6 +160,14 @@ def call_modset(V, fn, x, stack):
             d = find_def(fn, cal['name'])
             if d is not None and d['op'] == 'MakeClosure':
                 key = d['fn']
+        if key is None and cal['k'] == 'param':
+            out = {('ghost', 'fncalls_' + cal['name'], __import__('z3').IntSort())}
+            for i, a in enumerate(x['args']):
+                try:
+                    out.add(('ghost', 'fnarg%d_%s' % (i, cal['name']), w.sort(a['type'])))
+                except OutOfSubset:
+                    pass
+            return out
         if key is None:
             raise OutOfSubset('modset of dynamic call in ' + fn['key'])
     c = V.contracts['funcs'].get(key)
